@@ -1,6 +1,129 @@
-"""C08 - Rock Ridge fidelity for an independent SUSP/RRIP reader (DESIGN.md section 4): MASTER-ENUM histories + growth chains with the oracles.oracle_rockridge oracle."""
-from mc import master, ops, oracles
+"""C08 - Rock Ridge fidelity for an independent SUSP/RRIP reader (DESIGN.md section 4): MASTER-ENUM histories,
+continuation-area allocator alphabet, and complete input sweeps over name lengths and symlink target shapes."""
+import itertools
+
+from mc import explore, master, ops, oracles
+from mc.framework import Result
 from mc.props import _std
 
+CFGS = [ops.mk(1, rr='1.09'), ops.mk(2, rr='1.10', xa=True), ops.mk(3, rr='1.12'), ops.mk(3, rr='1.09', xa=True), ops.mk(1, rr='1.12', xa=True), ops.mk(3, rr='1.10')]
+ISO_NAMES = {1: ['N.;1', 'ABCDEFGH.TXT;1'], 2: ['N.;1', 'ABCDEFGH.TXT;1', 'A' * 27 + '.TXT;1'], 3: ['N.;1', 'ABCDEFGH.TXT;1', 'A' * 27 + '.TXT;1']}
+
+
+def sweep_cases(tier):
+    """(kind, payload) for every configuration"""
+    nmax = 1100 if tier == 'thorough' else 300
+    cases = []
+    for n in range(1, nmax + 1):
+        cases.append(('name', 'n' * n))
+    for n in range(1, nmax + 1):
+        cases.append(('target', 'a' * n))
+        cases.append(('target', '/' + 'a' * n))
+    for n in range(1, (400 if tier == 'thorough' else 260)):
+        cases.append(('target', 'a' * n + '/bbbb/cc'))
+        cases.append(('target', 'x/' + 'a' * n + '/..'))
+    for k in range(1, (41 if tier == 'thorough' else 13)):
+        for m in (1, 2, 125, 248, 249, 250, 251, 255, 256):
+            cases.append(('target', '/'.join(['c' * m] * k)))
+    comps = ['', '.', '..', 'a', '.a', 'a.']
+    for k in range(1, 5 if tier == 'thorough' else 4):
+        for t in itertools.product(comps, repeat=k):
+            tg = '/'.join(t)
+            if tg:
+                cases.append(('target', tg))
+                cases.append(('target', '/' + tg))
+    for n in (199, 200, 201, 250, 251):
+        for m in (120, 250, 260):
+            cases.append(('both', ('n' * n, 't' * m + '/u')))
+    return cases
+
+
+def build_steps(cfg, iso_name, kind, payload):
+    if kind == 'name':
+        return [[['add_fp', {'content': 'c1', 'iso_path': '/' + iso_name, 'rr_name': payload}]]]
+    if kind == 'target':
+        return [[['add_symlink', {'symlink_path': '/' + iso_name, 'rr_symlink_name': 's', 'rr_path': payload}]]]
+    return [[['add_symlink', {'symlink_path': '/' + iso_name, 'rr_symlink_name': payload[0], 'rr_path': payload[1]}]]]
+
+
+ORACLES = [oracles.oracle_rockridge, master.oracle_roundtrip]
+
+
+def extra_tasks(tier):
+    out = []
+    cases = sweep_cases(tier)
+    cfgs = CFGS if tier == 'thorough' else CFGS[:3]
+    for cfg in cfgs:
+        for iso_name in ISO_NAMES[cfg['level']][:(3 if tier == 'thorough' else 1)]:
+            for i in range(8):
+                out.append({'extra': True, 'cfg': cfg, 'iso_name': iso_name, 'cases': cases[i::8]})
+    # directory chains of depth 1..17 with a file and a symlink at each level, with and without set_relocated_name
+    for cfg in cfgs:
+        for reloc in (False, True):
+            out.append({'extra': True, 'cfg': cfg, 'deep': True, 'reloc': reloc, 'maxdepth': 17 if tier == 'thorough' else 10})
+    return out
+
+
+def deep_steps(cfg, depth, reloc):
+    steps = []
+    if reloc:
+        steps.append([['set_relocated_name', {'name': 'MOVED', 'rr_name': 'moved_here'}]])
+    p = ''
+    for i in range(1, depth + 1):
+        p += '/Y%d' % i
+        steps.append([['add_directory', {'iso_path': p, 'rr_name': 'y%d' % i}]])
+        steps.append([['add_fp', {'content': 'c1', 'iso_path': p + '/F.;1', 'rr_name': 'f'}]])
+        steps.append([['add_symlink', {'symlink_path': p + '/S.;1', 'rr_symlink_name': 's', 'rr_path': '../f'}]])
+    return steps
+
+
+def extra_run(task):
+    res = Result()
+    cfg = task['cfg']
+    if task.get('deep'):
+        for depth in range(1, task['maxdepth'] + 1):
+            case = {'extra': True, 'cfg': cfg, 'steps': deep_steps(cfg, depth, task['reloc'])}
+            status, viols, info = master.evaluate(case, ORACLES, res)
+            res.count('sweep_cases')
+            if status in ('refused', 'crash'):
+                res.count('sweep_refused')
+                res.note('sweep_refusals', 'depth %d: %s' % (depth, str(info['exc'])[:60]))
+                break
+            for v in viols:
+                res.violation(v['clause'], v['cls'], v['msg'], case)
+        return res
+    for kind, payload in task['cases']:
+        case = {'extra': True, 'cfg': cfg, 'steps': build_steps(cfg, task['iso_name'], kind, payload)}
+        status, viols, info = master.evaluate(case, ORACLES, res)
+        res.count('sweep_cases')
+        if status == 'refused':
+            res.count('sweep_refused')
+            res.note('sweep_refusals', '%s len %d: %s' % (kind, len(payload) if isinstance(payload, str) else len(payload[0]), str(info['exc'])[:60]))
+            continue
+        if status == 'crash':
+            t, site = explore.exc_site(info['exc'])
+            res.violation('edit accepted or refused with the invalid-input error', '%s@%s' % (t, site), '%s %r: %s' % (kind, str(payload)[:60], info['exc']), case)
+            continue
+        for v in viols:
+            res.violation(v['clause'], v['cls'], v['msg'], case)
+    return res
+
+
+def check_extra(case):
+    status, viols, info = master.evaluate(case, ORACLES)
+    if status == 'crash':
+        t, site = explore.exc_site(info['exc'])
+        return [{'clause': 'edit accepted or refused with the invalid-input error', 'cls': '%s@%s' % (t, site), 'msg': str(info['exc'])}]
+    return viols
+
+
+def coverage_extra(tier, r):
+    return {'input_sweep_cases': r.n.get('sweep_cases', 0), 'input_sweep_refused': r.n.get('sweep_refused', 0),
+            'input_sweep': 'every Rock Ridge name length 1..%d; symlink targets a*n, /a*n, a*n/bbbb/cc, k components of boundary lengths, every arrangement of special components; '
+                           'directory chains of depth 1..%d with a file and a symlink per level, with/without set_relocated_name' % ((1100, 17) if tier == 'thorough' else (300, 10))}
+
+
 _std.install(globals(), 'C08', 'model_checking', [oracles.oracle_rockridge], _std.default_bounds(ce=True),
-             ['independent decoders r119 + rsusp are trusted base', 'link count rule: 2 + physical subdirectories (CL placeholders count where they sit)'] + ['alphabet sigma1 of mc/ops.py and the depth bounds listed in the evidence'])
+             ['independent decoders r119 + rsusp are trusted base', 'link count rule: 2 + physical subdirectories (CL placeholders count where they sit), calibrated on the unchanged tree',
+              'alphabet sigma1 / sigma_ce of mc/ops.py, the input sweeps of this module and the depth bounds listed in the evidence'],
+             extra_tasks=extra_tasks, extra_run=extra_run)
